@@ -265,25 +265,11 @@ func (ic *inferContext) inferRelTypesFromPremise(premises []ast.Term, state *inf
 		return []*inferState{nextState}, nil
 
 	case ast.Ineq:
-		nextState := state.makeNext()
-		leftTpe := boundOfArg(t.Left, state.asMap(), bc.nameTrie)
-		rightTpe := boundOfArg(t.Right, state.asMap(), bc.nameTrie)
-
-		tpe := symbols.LowerBound(map[ast.Variable]ast.BaseTerm{}, []ast.BaseTerm{leftTpe, rightTpe})
-		if tpe.Equals(symbols.EmptyType) {
-			return nil, fmt.Errorf("type mismatch %v : left type %v right type %v", premise, leftTpe, rightTpe)
-		}
-		if leftVar, ok := t.Left.(ast.Variable); ok {
-			if err := nextState.addOrRefine(leftVar, tpe); err != nil {
-				return nil, err
-			}
-		}
-		if rightVar, ok := t.Right.(ast.Variable); ok {
-			if err := nextState.addOrRefine(rightVar, tpe); err != nil {
-				return nil, err
-			}
-		}
-		return []*inferState{nextState}, nil
+		// An inequality that holds says nothing about the type of either side
+		// ("foo" != 3 is true): every binding this state describes passes, with
+		// the types it has. Neither refining the two sides to their common type
+		// nor dropping the state when they have none is justified.
+		return []*inferState{state.makeNext()}, nil
 	}
 	return nil, fmt.Errorf("unexpected state %v", premise)
 }
